@@ -166,12 +166,17 @@ type c38ChunkSpec struct {
 type c38SlotSpec struct {
 	attempt string // "" = legacy keys slots/NNN/..., else slots/NNN/attempts/<attempt>/...
 	chunks  []c38ChunkSpec
+	// content: non-empty = the chunk payloads depend on this tag instead of the Slot number, so
+	// Slots with the same tag and chunk list store byte-identical chunks (equal descriptors)
+	content string
 }
 
 type c38Shape struct {
 	name  string
 	id    string
 	slots map[int]c38SlotSpec // focus slots; every other slot gets one small metadata chunk
+	// idleShared: every non-focus ("idle") Slot stores the same metadata bytes (equal descriptors)
+	idleShared bool
 }
 
 type c38Object struct {
@@ -226,6 +231,9 @@ func c38Build(shape c38Shape) (*c38Archive, error) {
 			a.focus[slot] = true
 		} else {
 			spec = c38SlotSpec{chunks: []c38ChunkSpec{c38Meta(24)}}
+			if shape.idleShared {
+				spec.content = "idle"
+			}
 		}
 		prefix := c38SlotPrefix(slot, spec.attempt)
 		man := backup.SlotManifest{
@@ -243,7 +251,11 @@ func c38Build(shape c38Shape) (*c38Archive, error) {
 			}
 			key := fmt.Sprintf("%s/%s-%06d.zst", prefix, name, seq[cs.kind])
 			var enc bytes.Buffer
-			desc, err := backup.EncodeChunk(&enc, bytes.NewReader(c38Payload(shape.name, slot, i, cs.size)))
+			payload := c38Payload(shape.name, slot, i, cs.size)
+			if spec.content != "" {
+				payload = c38Payload(shape.name+"/"+spec.content, 999, i, cs.size)
+			}
+			desc, err := backup.EncodeChunk(&enc, bytes.NewReader(payload))
 			if err != nil {
 				return nil, fmt.Errorf("EncodeChunk slot %d chunk %d: %w", slot, i, err)
 			}
@@ -303,6 +315,10 @@ func c38Shapes(thorough bool) []c38Shape {
 		{kind: backup.ChunkKindMetadata, stream: 0, part: 1, final: false, records: 2, size: 36},
 		{kind: backup.ChunkKindMetadata, stream: 0, part: 2, final: true, records: 1, size: 33}}}
 	threeChunks := c38SlotSpec{chunks: []c38ChunkSpec{c38Meta(28), c38Msg(1, 1, false, 2, 90, 40), c38Msg(1, 2, true, 1, 91, 35)}}
+	dupBusy := c38SlotSpec{content: "busy", chunks: []c38ChunkSpec{c38Meta(40), c38Msg(1, 1, true, 3, 77, 48)}}
+	// "dup": all idle Slots share one metadata chunk content and two busy Slots (3, 9) are
+	// byte-identical, so equal chunk descriptors occur many times in one verification pass
+	dup := c38Shape{name: "dup", id: "bk_c38_dup", idleShared: true, slots: map[int]c38SlotSpec{3: dupBusy, 9: dupBusy}}
 	if !thorough {
 		return []c38Shape{
 			{name: "min", id: "bk_c38_min", slots: map[int]c38SlotSpec{0: {chunks: []c38ChunkSpec{c38Meta(30)}}}},
@@ -313,6 +329,7 @@ func c38Shapes(thorough bool) []c38Shape {
 			}},
 			// same backup id as "rich", different content: cross-archive object swaps
 			{name: "rich2", id: "bk_c38_rich", slots: map[int]c38SlotSpec{0: {chunks: []c38ChunkSpec{c38Meta(40), c38Msg(1, 1, true, 3, 78, 48)}}}},
+			dup,
 		}
 	}
 	return []c38Shape{
@@ -334,6 +351,7 @@ func c38Shapes(thorough bool) []c38Shape {
 			0: {chunks: []c38ChunkSpec{c38Meta(40), c38Msg(1, 1, true, 3, 78, 48)}},
 			1: {attempt: "00000003", chunks: []c38ChunkSpec{c38Meta(36)}},
 		}},
+		dup,
 	}
 }
 
